@@ -6,6 +6,7 @@ CONSTANTS
   NScopes = 2
   MaxOps = 12
   BoundaryRule = "le"
+  MaxBatch = 3
   Core = FALSE
 INIT Init
 NEXT Next
